@@ -188,11 +188,14 @@ def run(cx):
 
     with cx.ob("C06.1b", "R-PANIC", "no panic-capable construct executes inside a peer-map / known-peers critical section (discharges lock-poisoning unwraps)") as ob:
         inner = [p for p in prog.bodies if p.startswith(f"{CM}::ActivePeersInner::") and "__CALLSITE" not in p and "::{" not in p]
-        ob.floor(inner, 9, "ActivePeersInner methods")
+        ob.floor(inner, 7, "ActivePeersInner methods")          # (the two one-line accessors contains/len are always inlined)
         # code that runs while a guard is held elsewhere: the eligibility filter closure of handle_connectivity_check, shutdown's assert
         hc = cx.body(f"{CM}::ConnectionManager::handle_connectivity_check")
         closures = [k.path for k in prog.children(hc)]
-        guarded = inner + [c for c in closures if any(name_matches(x.fn, f"{CM}::ActivePeersInner::contains") for x in prog.body(c).calls())]
+        def reads_peer_map(kb_):
+            ko_ = Origins(kb_)
+            return any(name_matches(x.fn, "HashMap::contains_key") and mentions_field(ko_.of_operand(x.args[0]), "connections") for x in kb_.calls())
+        guarded = inner + [c for c in closures if reads_peer_map(prog.body(c))]
         reach, sites = panic_sites(prog, guarded)
         ob.count(len(reach))
         for s in sites:
